@@ -733,10 +733,14 @@ def jobs(tier, seed):
     # Forks / Singles around concrete solutions on 3x3 and 4x4 (degree > 2 needs them), surrounding bits symbolic
     forks_pts = _idx_where(pts, lambda x: type(x.step_size).__name__ == "Forks")
     for n in (3, 4):
-        sols = _simple_paths(n, 5 if n == 3 else 6, seed + n, 6 if q else 16) + [[(1, 1)], [(0, 0), (0, 1)], [(1, 0), (1, 1), (1, 2)], [(0, 1), (1, 1), (1, 2), (2, 2)]]
+        sols = _simple_paths(n, 5 if (n == 3 or q) else 6, seed + n, 6 if q else 16) + [[(1, 1)], [(0, 0), (0, 1)], [(1, 0), (1, 1), (1, 2)], [(0, 1), (1, 1), (1, 2), (2, 2)]]
         for sol in sols:
             pick = sorted(int(i) for i in rng.choice(forks_pts, size=(8 if n == 3 else 3) if q else 40, replace=False)) + sorted(int(i) for i in rng.choice(all_pt, size=4 if n == 3 else 2, replace=False))
-            out.append(dict(h="path_forks", n=n, sols=[[list(p) for p in sol]], pt=pick, ct=[ct_ut, ct_bare] if not q else [ct_ut]))
+            if n == 4 and len(sol) >= 5:
+                for pi in (pick[:3] if q else pick):
+                    out.append(dict(h="path_forks", n=n, sols=[[list(p) for p in sol]], pt=[pi], ct=[ct_ut], max_seconds=3000))
+            else:
+                out.append(dict(h="path_forks", n=n, sols=[[list(p) for p in sol]], pt=pick, ct=[ct_ut, ct_bare] if not q else [ct_ut]))
     # (e) complete tokenizers on the three maze kinds
     def toks(k, seq=None):
         res = []
